@@ -3,11 +3,12 @@
    tables from them (cpc/include/cpc_compressor_impl.hpp: make_inverse_permutation l.63-72, make_decoding_table
    l.78-93, validate_decoding_table l.96-109, make_decoding_tables l.112-130).
 
-   Everything about the concrete tables is a FINITE obligation: a boolean checker evaluated by [vm_compute] on the
-   translated tables (one obligation per table and per kind of check; see the count at the end of the file).  The
+   Everything about the concrete tables rests on FINITE obligations: boolean checkers evaluated by the kernel on the
+   translated tables (count at the end of the file).  The checkers are designed so that the TOTAL computation is small
+   (about 4096 array operations per table and per kind), because coqchk re-evaluates them without the VM.  The
    Prop-level corollaries that a codec proof needs ([byte_decode_encode], [byte_validate], [byte_prefix_free],
-   [byte_code_len_bounds], ... and the same for the unary table and the permutations) are then DERIVED from the
-   checkers by generic lemmas ([forallbi_nth], [forallb_nth]), never by computing over a quantified Prop.
+   [byte_code_len_bounds], ... and the same for the unary table and the permutations) are DERIVED from the checkers by
+   generic lemmas, never by computing over a quantified Prop.
 
    Encoding entry e (uint16_t): code length = e >> 12, code value = e & 0xfff; the codeword is the low [code_len e]
    bits of [code_val e], emitted least significant bit first.  Hence "codeword a is a prefix of codeword b" reads
@@ -15,18 +16,25 @@
 
    Modelling notes for make_decoding_table (the model is the literal double loop over an array):
    - the C++ array is [new uint16_t[4096]], i.e. UNINITIALISED.  The array is modelled as a finite map in which an
-     unwritten slot is absent; [array_complete] is the obligation that all 4096 slots get written (so no
+     unwritten slot is absent; the obligation [slots_ok] includes that all 4096 slots get written (so no
      uninitialised value can ever be read); [make_decoding_table] reads absent slots as 0.
    - [code_length] is a uint8_t holding e >> 12 <= 15 and [garbage_length = 12 - code_length] is a uint8_t: for a
      length above 12 the C++ value wraps (and [1 << garbage_length] is undefined behaviour) while [N] subtraction
      truncates to 0.  The two agree exactly when every length is <= 12, which is the obligation [*_lengths_ok].
    - the casts to uint16_t of [decoding_entry] ((len << 8) | byte, len <= 15, byte < 256) and of
      [extended_code_value] (followed by [& 0xfff]) never lose bits that are looked at; [N.land _ 65535] is kept in
-     the model for the entry all the same.
-   - [make_decoding_table_mappass] is the closed-form description ("slot p holds the entry of the LAST byte value
-     whose codeword matches the low bits of p"); it coincides with the loop on the p with
-     [p mod 2^len = val] exactly when [val < 2^len] (obligation [*_canonical]); the agreement of the two
-     constructions on every table is itself an obligation ([*_loop_eq_mappass]). *)
+     the model all the same.
+
+   The kinds of finite check, per code table (22 byte tables with 256 symbols, 1 unary table with 65 symbols):
+     lengths     every entry < 2^16 and 1 <= code length <= 12; the table has the expected number of symbols
+     canonical   code_val e < 2 ^ code_len e (no bits above the code length)
+     slots       every slot p < 4096 of the array built by the loop is written, and its content d = (l << 8 | b)
+                 passes the test of validate_decoding_table: enc[b] has length l and value p mod 2^l (decode -> encode)
+     extensions  for every symbol b and every g < 2^(12-len b), slot val b + g * 2^(len b) holds (len b << 8 | b), i.e.
+                 no later symbol has overwritten it (encode -> decode)
+   From these: [*_decode_encode] (extensions + arithmetic), [*_validate] (slots; also as "the C++ function
+   validate_decoding_table returns normally"), [*_table_written], and prefix-freeness [*_prefix_free] (two symbols
+   whose codewords are prefix-related would claim the same slot [val b]; no pairwise computation is needed). *)
 From Coq Require Import NArith List Bool Lia Arith FMapPositive.
 From DS.gen Require Import CpcTablesGen.
 Import ListNotations.
@@ -51,13 +59,6 @@ Fixpoint nseq (s : N) (n : nat) : list N :=
 (* 4096 as a nat is always written [n4096] (a 4096-deep unary literal makes [lia] and conversion slow) *)
 Definition n4096 : nat := N.to_nat 4096.
 Notation idx4096 := (nseq 0 n4096).
-
-Fixpoint list_eqb (a b : list N) : bool :=
-  match a, b with
-  | [], [] => true
-  | x :: r, y :: s => (x =? y) && list_eqb r s
-  | _, _ => false
-  end.
 
 (** * make_decoding_table: literal mirror of the C++ double loop *)
 
@@ -92,32 +93,13 @@ Definition read_slot (arr : PositiveMap.t N) (p : N) : N :=
 
 Definition make_decoding_table (enc : list N) : list N := map (read_slot (make_decoding_array enc)) idx4096.
 
-(* every one of the 4096 slots has been written *)
-Definition slot_written (arr : PositiveMap.t N) (p : N) : bool :=
-  match PositiveMap.find (slot p) arr with Some _ => true | None => false end.
-Notation array_complete := (fun arr : PositiveMap.t N => forallb (slot_written arr) idx4096).
-
-(** closed form: one pass over the table per byte value *)
-Fixpoint mappass (p mask cv entry : N) (tbl : list N) : list N :=
-  match tbl with
-  | [] => []
-  | x :: r => (if N.land p mask =? cv then entry else x) :: mappass (N.succ p) mask cv entry r
-  end.
-
-Fixpoint mappass_bytes (enc : list N) (b : N) (tbl : list N) : list N :=
-  match enc with
-  | [] => tbl
-  | e :: r => mappass_bytes r (N.succ b) (mappass 0 (N.ones (code_len e)) (code_val e) (code_len e * 256 + b) tbl)
-  end.
-
-Definition make_decoding_table_mappass (enc : list N) : list N := mappass_bytes enc 0 (repeat 0 n4096).
-
 (** * validate_decoding_table (true = no exception; an out-of-range read of the encoding table counts as failure) *)
 
-Definition validate_entry (enc : list N) (decode_this tmp_d : N) : bool :=
+(* body of the loop, parameterised by the way encoding_table[decoded_byte] is read *)
+Definition validate_entry_with (lookup : N -> option N) (decode_this tmp_d : N) : bool :=
   let decoded_byte := N.land tmp_d 255 in
   let decoded_length := N.shiftr tmp_d 8 in
-  match nth_error enc (N.to_nat decoded_byte) with
+  match lookup decoded_byte with
   | None => false
   | Some tmp_e =>
       let encoded_bit_pattern := N.land tmp_e 4095 in
@@ -126,10 +108,13 @@ Definition validate_entry (enc : list N) (decode_this tmp_d : N) : bool :=
       (encoded_bit_pattern =? N.land decode_this (N.shiftl 1 decoded_length - 1))
   end.
 
+Definition validate_entry (enc : list N) : N -> N -> bool :=
+  validate_entry_with (fun b => nth_error enc (N.to_nat b)).
+
 Definition validate_decoding_table (dec enc : list N) : bool :=
   (N.of_nat (length dec) =? 4096) && forallbi (validate_entry enc) 0 dec.
 
-(** * The boolean checkers, one per kind ([n] = number of byte values of the table) *)
+(** * The boolean checkers ([n] = number of byte values of the table) *)
 
 Definition chk_lengths (n : nat) (enc : list N) : bool :=
   (length enc =? n)%nat &&
@@ -138,27 +123,48 @@ Definition chk_lengths (n : nat) (enc : list N) : bool :=
 Definition chk_canonical (enc : list N) : bool :=
   forallb (fun e => code_val e <? 2 ^ code_len e) enc.
 
-(* [chk_complete], [chk_validate], [chk_decode_encode] are notations, not constants: the derivations below then never
-   need a delta-conversion in front of a closed 4096-entry computation (which the kernel might decide to evaluate) *)
-Notation chk_complete := (fun enc : list N => array_complete (make_decoding_array enc)).
+(* the encoding table as an array with logarithmic access (a list lookup per slot would cost 4096 x 128 steps) *)
+Fixpoint fill (l : list N) (i : N) (m : PositiveMap.t N) : PositiveMap.t N :=
+  match l with
+  | [] => m
+  | x :: r => fill r (N.succ i) (PositiveMap.add (slot i) x m)
+  end.
+Definition list_array (l : list N) : PositiveMap.t N := fill l 0 (PositiveMap.empty N).
 
-Definition chk_loop_eq_mappass (enc : list N) : bool :=
-  list_eqb (make_decoding_table enc) (make_decoding_table_mappass enc).
+(* slot p has been written and its content passes the test of validate_decoding_table *)
+Definition slot_ok (ea arr : PositiveMap.t N) (p : N) : bool :=
+  match PositiveMap.find (slot p) arr with
+  | None => false
+  | Some d => validate_entry_with (fun b => PositiveMap.find (slot b) ea) p d
+  end.
+Notation slots_ok := (fun ea arr : PositiveMap.t N => forallb (slot_ok ea arr) idx4096).
 
-Notation chk_validate := (fun enc : list N => validate_decoding_table (make_decoding_table enc) enc).
+(* slots idx, idx + step, ..., idx + (fuel-1) * step all hold [expect] *)
+Fixpoint ext_loop (fuel : nat) (idx step expect : N) (arr : PositiveMap.t N) : bool :=
+  match fuel with
+  | O => true
+  | S f => match PositiveMap.find (slot idx) arr with Some v => v =? expect | None => false end
+           && ext_loop f (idx + step) step expect arr
+  end.
 
+Definition extensions_ok (enc : list N) (arr : PositiveMap.t N) : bool :=
+  forallbi (fun b e =>
+    let cl := code_len e in
+    ext_loop (N.to_nat (2 ^ (12 - cl))) (code_val e) (2 ^ cl) (cl * 256 + b) arr) 0 enc.
+
+(* the two array-based kinds share one construction of the array.  A notation, not a constant: the derivations below
+   then never need a delta-conversion in front of a closed 4096-entry computation (which the kernel might evaluate) *)
+Notation chk_array := (fun enc : list N =>
+  let arr := make_decoding_array enc in
+  slots_ok (list_array enc) arr && extensions_ok enc arr).
+
+(* pairwise prefix-freeness; only evaluated on the unary table and on small examples (for the byte tables it is
+   derived, see [gen_prefix_free]) *)
 Definition chk_prefix_free (enc : list N) : bool :=
   forallbi (fun a ea =>
     let la := code_len ea in let va := code_val ea in let mask := N.ones la in
     forallbi (fun b eb =>
       (a =? b) || negb ((la <=? code_len eb) && (N.land (code_val eb) mask =? va))) 0 enc) 0 enc.
-
-Definition decode_encode_ok (dec enc : list N) : bool :=
-  (N.of_nat (length dec) =? 4096) &&
-  forallbi (fun b e =>
-    let cl := code_len e in let cv := code_val e in let mask := N.ones cl in let expect := cl * 256 + b in
-    forallbi (fun p d => if N.land p mask =? cv then d =? expect else true) 0 dec) 0 enc.
-Notation chk_decode_encode := (fun enc : list N => decode_encode_ok (make_decoding_table enc) enc).
 
 (** * Column permutations *)
 
@@ -216,15 +222,7 @@ Lemma byte_tables_lengths_ok : forallb (chk_lengths 256) encoding_tables_for_hig
 Proof. vm_cast_no_check (eq_refl true). Qed.
 Lemma byte_tables_canonical : forallb chk_canonical encoding_tables_for_high_entropy_byte = true.
 Proof. vm_cast_no_check (eq_refl true). Qed.
-Lemma byte_tables_complete : forallb chk_complete encoding_tables_for_high_entropy_byte = true.
-Proof. vm_cast_no_check (eq_refl true). Qed.
-Lemma byte_tables_loop_eq_mappass : forallb chk_loop_eq_mappass encoding_tables_for_high_entropy_byte = true.
-Proof. vm_cast_no_check (eq_refl true). Qed.
-Lemma byte_tables_validate : forallb chk_validate encoding_tables_for_high_entropy_byte = true.
-Proof. vm_cast_no_check (eq_refl true). Qed.
-Lemma byte_tables_prefix_free : forallb chk_prefix_free encoding_tables_for_high_entropy_byte = true.
-Proof. vm_cast_no_check (eq_refl true). Qed.
-Lemma byte_tables_decode_encode : forallb chk_decode_encode encoding_tables_for_high_entropy_byte = true.
+Lemma byte_tables_array_ok : forallb chk_array encoding_tables_for_high_entropy_byte = true.
 Proof. vm_cast_no_check (eq_refl true). Qed.
 
 (* the unary table (65 symbols) *)
@@ -232,15 +230,9 @@ Lemma unary_table_lengths_ok : chk_lengths 65 length_limited_unary_encoding_tabl
 Proof. vm_cast_no_check (eq_refl true). Qed.
 Lemma unary_table_canonical : chk_canonical length_limited_unary_encoding_table65 = true.
 Proof. vm_cast_no_check (eq_refl true). Qed.
-Lemma unary_table_complete : chk_complete length_limited_unary_encoding_table65 = true.
+Lemma unary_table_array_ok : chk_array length_limited_unary_encoding_table65 = true.
 Proof. vm_cast_no_check (eq_refl true). Qed.
-Lemma unary_table_loop_eq_mappass : chk_loop_eq_mappass length_limited_unary_encoding_table65 = true.
-Proof. vm_cast_no_check (eq_refl true). Qed.
-Lemma unary_table_validate : chk_validate length_limited_unary_encoding_table65 = true.
-Proof. vm_cast_no_check (eq_refl true). Qed.
-Lemma unary_table_prefix_free : chk_prefix_free length_limited_unary_encoding_table65 = true.
-Proof. vm_cast_no_check (eq_refl true). Qed.
-Lemma unary_table_decode_encode : chk_decode_encode length_limited_unary_encoding_table65 = true.
+Lemma unary_table_pairwise_prefix_free : chk_prefix_free length_limited_unary_encoding_table65 = true.
 Proof. vm_cast_no_check (eq_refl true). Qed.
 
 (* 16 column permutations *)
@@ -264,6 +256,17 @@ Proof.
     apply IH; [exact H2|lia].
 Qed.
 
+Lemma forallbi_intro {A} (f : N -> A -> bool) (d : A) : forall (l : list A) (i : N),
+  (forall k, (k < length l)%nat -> f (i + N.of_nat k) (nth k l d) = true) -> forallbi f i l = true.
+Proof.
+  induction l as [|x r IH]; intros i H; cbn [forallbi]; [reflexivity|].
+  apply andb_true_iff. split.
+  - specialize (H 0%nat ltac:(cbn [length]; lia)). cbn [nth] in H. change (N.of_nat 0) with 0 in H.
+    rewrite N.add_0_r in H. exact H.
+  - apply IH. intros k Hk. specialize (H (S k) ltac:(cbn [length]; lia)). cbn [nth] in H.
+    replace (N.succ i + N.of_nat k) with (i + N.of_nat (S k)) by lia. exact H.
+Qed.
+
 Lemma forallb_nth {A} (f : A -> bool) (l : list A) (k : nat) (d : A) :
   forallb f l = true -> (k < length l)%nat -> f (nth k l d) = true.
 Proof. intros H Hk. rewrite forallb_forall in H. apply H, nth_In, Hk. Qed.
@@ -274,12 +277,6 @@ Proof. intros Hk. rewrite (nth_indep _ db (f da)) by (rewrite map_length; exact 
 
 Lemma nth_error_nth_some {A} (l : list A) (k : nat) (x d : A) : nth_error l k = Some x -> nth k l d = x.
 Proof. intros H. apply nth_error_nth, H. Qed.
-
-Lemma list_eqb_eq : forall a b, list_eqb a b = true -> a = b.
-Proof.
-  induction a as [|x r IH]; destruct b as [|y s]; cbn [list_eqb]; intros H; try discriminate; [reflexivity|].
-  apply andb_true_iff in H as [H1 H2]. apply N.eqb_eq in H1. subst y. f_equal. apply IH, H2.
-Qed.
 
 Lemma nseq_length : forall n s, length (nseq s n) = n.
 Proof. induction n; intros s; cbn [nseq length]; [reflexivity|f_equal; apply IHn]. Qed.
@@ -300,24 +297,75 @@ Qed.
 Lemma to_nat_lt_4096 p : p < 4096 -> (N.to_nat p < n4096)%nat.
 Proof. intros H. unfold n4096. generalize dependent 4096. intros m H. lia. Qed.
 
-Lemma to_nat_lt_len {A} (l : list A) p m : N.of_nat (length l) = m -> p < m -> (N.to_nat p < length l)%nat.
-Proof. intros H Hp. lia. Qed.
+Lemma forallb_idx4096 (f : N -> bool) p : forallb f idx4096 = true -> p < 4096 -> f p = true.
+Proof.
+  intros H Hp. pose proof (forallb_nseq f n4096 0 (N.to_nat p) H (to_nat_lt_4096 p Hp)) as H1.
+  rewrite N.add_0_l, N2Nat.id in H1. exact H1.
+Qed.
 
-(** ** Statements about an arbitrary (decoding table, encoding table) pair that passes a checker
-    (the decoding table is a variable here, so nothing about 4096-entry lists is ever computed by these proofs) *)
+Lemma make_decoding_table_length enc : N.of_nat (length (make_decoding_table enc)) = 4096.
+Proof. unfold make_decoding_table. rewrite map_length, nseq_length. unfold n4096. apply N2Nat.id. Qed.
 
-Lemma validate_sound dec enc p : validate_decoding_table dec enc = true -> p < 4096 ->
-  let d := nth (N.to_nat p) dec 0 in
+Lemma make_decoding_table_nth enc p : p < 4096 ->
+  nth (N.to_nat p) (make_decoding_table enc) 0 = read_slot (make_decoding_array enc) p.
+Proof.
+  intros Hp. pose proof (to_nat_lt_4096 p Hp) as Hn. unfold make_decoding_table.
+  rewrite (nth_map_lt _ _ _ 0 0) by (rewrite nseq_length; exact Hn).
+  rewrite nseq_nth by exact Hn. rewrite N.add_0_l, N2Nat.id. reflexivity.
+Qed.
+
+(** ** the encoding table as an array *)
+
+Lemma slot_inj a b : slot a = slot b -> a = b.
+Proof.
+  unfold slot. intros H. apply N.succ_inj. rewrite <- !N.succ_pos_spec. rewrite H. reflexivity.
+Qed.
+
+Lemma fill_find : forall (l : list N) (i : N) (m : PositiveMap.t N) (j : N),
+  (forall j', i <= j' -> PositiveMap.find (slot j') m = None) ->
+  PositiveMap.find (slot j) (fill l i m) =
+  if j <? i then PositiveMap.find (slot j) m else nth_error l (N.to_nat (j - i)).
+Proof.
+  induction l as [|x r IH]; intros i m j Hm; cbn [fill].
+  - destruct (j <? i) eqn:E; [reflexivity|]. apply N.ltb_ge in E. rewrite (Hm j E).
+    destruct (N.to_nat (j - i)); reflexivity.
+  - rewrite IH.
+    + destruct (j <? N.succ i) eqn:E1; destruct (j <? i) eqn:E2;
+        try apply N.ltb_lt in E1; try apply N.ltb_ge in E1; try apply N.ltb_lt in E2; try apply N.ltb_ge in E2.
+      * apply PositiveMap.gso. intros Heq. apply slot_inj in Heq. lia.
+      * assert (j = i) by lia. subst j. rewrite PositiveMap.gss. rewrite N.sub_diag. reflexivity.
+      * lia.
+      * replace (N.to_nat (j - i)) with (S (N.to_nat (j - N.succ i))) by lia. reflexivity.
+    + intros j' Hj'. rewrite PositiveMap.gso; [apply Hm; lia|]. intros Heq. apply slot_inj in Heq. lia.
+Qed.
+
+Lemma list_array_find (l : list N) (b : N) :
+  PositiveMap.find (slot b) (list_array l) = nth_error l (N.to_nat b).
+Proof.
+  unfold list_array. rewrite fill_find by (intros; apply PositiveMap.gempty).
+  replace (b <? 0) with false by (symmetry; apply N.ltb_ge; lia). rewrite N.sub_0_r. reflexivity.
+Qed.
+
+(** ** what the two array passes establish, for an arbitrary encoding table and an arbitrary array *)
+
+(* slots pass: decode then encode *)
+Lemma slots_ok_sound enc arr p : slots_ok (list_array enc) arr = true -> p < 4096 ->
+  PositiveMap.find (slot p) arr <> None /\ validate_entry enc p (read_slot arr p) = true.
+Proof.
+  intros H Hp. cbv beta in H. pose proof (forallb_idx4096 _ p H Hp) as H1. cbv beta in H1.
+  unfold slot_ok in H1. unfold read_slot. destruct (PositiveMap.find (slot p) arr) as [d|]; [|discriminate].
+  split; [discriminate|].
+  unfold validate_entry, validate_entry_with in *. cbv beta zeta in *.
+  rewrite list_array_find in H1. exact H1.
+Qed.
+
+Lemma validate_entry_sound enc p d : validate_entry enc p d = true ->
   let b := N.land d 255 in
   let l := N.shiftr d 8 in
   (N.to_nat b < length enc)%nat /\
   let e := nth (N.to_nat b) enc 0 in code_len e = l /\ code_val e = p mod 2 ^ l.
 Proof.
-  intros H Hp d b l. unfold validate_decoding_table in H. apply andb_true_iff in H as [Hlen H].
-  apply N.eqb_eq in Hlen.
-  pose proof (forallbi_nth _ dec 0 (N.to_nat p) 0 H (to_nat_lt_len _ _ _ Hlen Hp)) as H2.
-  rewrite N.add_0_l, N2Nat.id in H2. fold d in H2. unfold validate_entry in H2. cbv zeta in H2.
-  fold b l in H2.
+  intros H2 b l. unfold validate_entry, validate_entry_with in H2. cbv beta zeta in H2. fold b l in H2.
   destruct (nth_error enc (N.to_nat b)) as [e|] eqn:He; [|discriminate].
   assert (Hb : (N.to_nat b < length enc)%nat).
   { apply nth_error_Some. rewrite He. discriminate. }
@@ -327,25 +375,37 @@ Proof.
   rewrite Hb2. rewrite N.shiftl_1_l, N.sub_1_r, <- N.ones_equiv, N.land_ones. reflexivity.
 Qed.
 
-Lemma decode_encode_sound dec enc b p : decode_encode_ok dec enc = true -> (b < length enc)%nat -> p < 4096 ->
-  let e := nth b enc 0 in
-  p mod 2 ^ code_len e = code_val e ->
-  nth (N.to_nat p) dec 0 = code_len e * 256 + N.of_nat b.
+(* extensions pass: encode then decode *)
+Lemma ext_loop_sound arr step expect : forall fuel idx k,
+  ext_loop fuel idx step expect arr = true -> (k < fuel)%nat ->
+  PositiveMap.find (slot (idx + N.of_nat k * step)) arr = Some expect.
 Proof.
-  intros H Hb Hp e Hm. unfold decode_encode_ok in H. apply andb_true_iff in H as [Hlen H].
-  apply N.eqb_eq in Hlen.
-  pose proof (forallbi_nth _ enc 0 b 0 H Hb) as H1. cbv beta zeta in H1. fold e in H1.
-  pose proof (forallbi_nth _ dec 0 (N.to_nat p) 0 H1 (to_nat_lt_len _ _ _ Hlen Hp)) as H2.
-  cbv beta in H2. rewrite !N.add_0_l, N2Nat.id, N.land_ones, Hm, N.eqb_refl in H2.
-  apply N.eqb_eq, H2.
+  induction fuel as [|f IH]; intros idx k H Hk; [lia|]. cbn [ext_loop] in H.
+  apply andb_true_iff in H as [H1 H2]. destruct k as [|k].
+  - change (N.of_nat 0) with 0. rewrite N.mul_0_l, N.add_0_r.
+    destruct (PositiveMap.find (slot idx) arr) as [v|]; [|discriminate]. apply N.eqb_eq in H1. subst v. reflexivity.
+  - replace (idx + N.of_nat (S k) * step) with (idx + step + N.of_nat k * step) by lia.
+    apply IH; [exact H2|lia].
 Qed.
 
-Lemma array_complete_sound arr p : array_complete arr = true -> p < 4096 ->
-  PositiveMap.find (slot p) arr <> None.
+Lemma extensions_ok_sound enc arr b p : extensions_ok enc arr = true -> (b < length enc)%nat -> p < 4096 ->
+  let e := nth b enc 0 in
+  code_len e <= 12 ->
+  p mod 2 ^ code_len e = code_val e ->
+  PositiveMap.find (slot p) arr = Some (code_len e * 256 + N.of_nat b).
 Proof.
-  intros H Hp. cbv beta in H.
-  pose proof (forallb_nseq _ _ 0 (N.to_nat p) H (to_nat_lt_4096 p Hp)) as H1.
-  rewrite N.add_0_l, N2Nat.id in H1. unfold slot_written in H1. destruct (PositiveMap.find _ _); discriminate.
+  intros H Hb Hp e Hl Hm. unfold extensions_ok in H.
+  pose proof (forallbi_nth _ enc 0 b 0 H Hb) as H1. cbv beta zeta in H1. fold e in H1. rewrite N.add_0_l in H1.
+  set (cl := code_len e) in *.
+  assert (Hpow : 2 ^ cl * 2 ^ (12 - cl) = 4096).
+  { rewrite <- N.pow_add_r. replace (cl + (12 - cl)) with 12 by lia. reflexivity. }
+  assert (Hnz : 2 ^ cl <> 0) by (apply N.pow_nonzero; discriminate).
+  assert (Hq : p / 2 ^ cl < 2 ^ (12 - cl)).
+  { apply N.div_lt_upper_bound; [exact Hnz|]. rewrite Hpow. exact Hp. }
+  pose proof (ext_loop_sound arr _ _ _ _ (N.to_nat (p / 2 ^ cl)) H1 ltac:(lia)) as H2.
+  rewrite N2Nat.id in H2.
+  replace (code_val e + p / 2 ^ cl * 2 ^ cl) with p in H2; [exact H2|].
+  rewrite <- Hm. rewrite (N.div_mod p (2 ^ cl) Hnz) at 1. lia.
 Qed.
 
 (** ** Per-table statements, for an arbitrary encoding table that passes the checkers *)
@@ -375,47 +435,68 @@ Section Generic.
     pose proof (forallb_nth _ enc b 0 H ltac:(lia)) as Hb'. apply N.ltb_lt in Hb'. exact Hb'.
   Qed.
 
+  Hypothesis Harr : chk_array enc = true.
+
+  Lemma gen_slots : slots_ok (list_array enc) (make_decoding_array enc) = true.
+  Proof. cbv beta zeta in Harr. apply andb_true_iff in Harr as [H _]. exact H. Qed.
+
+  Lemma gen_extensions : extensions_ok enc (make_decoding_array enc) = true.
+  Proof. cbv beta zeta in Harr. apply andb_true_iff in Harr as [_ H]. exact H. Qed.
+
   (* encode then decode: every 12-bit window p whose low [len] bits are the codeword of b decodes to (len, b) *)
-  Lemma gen_decode_encode b p : chk_decode_encode enc = true -> (b < n)%nat -> p < 4096 ->
+  Lemma gen_decode_encode b p : (b < n)%nat -> p < 4096 ->
     let e := nth b enc 0 in
     p mod 2 ^ code_len e = code_val e ->
     nth (N.to_nat p) (make_decoding_table enc) 0 = code_len e * 256 + N.of_nat b.
   Proof.
-    intros H Hb Hp. apply decode_encode_sound; [exact H| rewrite gen_length; exact Hb | exact Hp].
+    intros Hb Hp e Hm. rewrite (make_decoding_table_nth enc p Hp). unfold read_slot.
+    rewrite (extensions_ok_sound enc _ b p gen_extensions ltac:(rewrite gen_length; exact Hb) Hp
+               (proj2 (proj2 (gen_code_len_bounds b Hb))) Hm).
+    reflexivity.
   Qed.
 
+  (* no slot of the 4096-entry array is left uninitialised *)
+  Lemma gen_complete p : p < 4096 -> PositiveMap.find (slot p) (make_decoding_array enc) <> None.
+  Proof. intros Hp. exact (proj1 (slots_ok_sound enc _ p gen_slots Hp)). Qed.
+
   (* decode then encode: the entry found at any 12-bit window p names a byte value whose codeword is the low bits of p *)
-  Lemma gen_validate p : chk_validate enc = true -> p < 4096 ->
+  Lemma gen_validate p : p < 4096 ->
     let d := nth (N.to_nat p) (make_decoding_table enc) 0 in
     let b := N.land d 255 in
     let l := N.shiftr d 8 in
     (N.to_nat b < n)%nat /\
     let e := nth (N.to_nat b) enc 0 in code_len e = l /\ code_val e = p mod 2 ^ l.
   Proof.
-    intros H Hp. rewrite <- gen_length. apply validate_sound; [exact H|exact Hp].
+    intros Hp. rewrite (make_decoding_table_nth enc p Hp). rewrite <- gen_length.
+    apply validate_entry_sound. exact (proj2 (slots_ok_sound enc _ p gen_slots Hp)).
   Qed.
 
-  (* no codeword is a prefix (LSB first) of the codeword of another byte value *)
-  Lemma gen_prefix_free a b : chk_prefix_free enc = true -> (a < n)%nat -> (b < n)%nat -> a <> b ->
+  (* the C++ function validate_decoding_table, run on the table built by make_decoding_table, does not throw *)
+  Lemma gen_validate_decoding_table : validate_decoding_table (make_decoding_table enc) enc = true.
+  Proof.
+    unfold validate_decoding_table. apply andb_true_iff. split.
+    - rewrite make_decoding_table_length. reflexivity.
+    - apply (forallbi_intro _ 0). intros k Hk. rewrite N.add_0_l.
+      assert (Hp : N.of_nat k < 4096) by (rewrite <- (make_decoding_table_length enc); lia).
+      rewrite <- (Nat2N.id k) at 2. rewrite (make_decoding_table_nth enc _ Hp).
+      exact (proj2 (slots_ok_sound enc _ _ gen_slots Hp)).
+  Qed.
+
+  (* no codeword is a prefix (LSB first) of the codeword of another byte value: otherwise both symbols would own
+     the slot [code_val eb] *)
+  Lemma gen_prefix_free a b : chk_canonical enc = true -> (n <= 256)%nat -> (a < n)%nat -> (b < n)%nat -> a <> b ->
     let ea := nth a enc 0 in let eb := nth b enc 0 in
     ~ (code_len ea <= code_len eb /\ code_val eb mod 2 ^ code_len ea = code_val ea).
   Proof.
-    intros H Ha Hb Hab ea eb [H1 H2]. pose proof gen_length as Hl. unfold chk_prefix_free in H.
-    pose proof (forallbi_nth _ enc 0 a 0 H ltac:(lia)) as Hx. cbv beta zeta in Hx. fold ea in Hx.
-    pose proof (forallbi_nth _ enc 0 b 0 Hx ltac:(lia)) as Hy. cbv beta in Hy. fold eb in Hy.
-    rewrite !N.add_0_l, N.land_ones, H2, N.eqb_refl in Hy.
-    apply N.leb_le in H1. rewrite H1 in Hy. cbn [andb negb] in Hy. rewrite orb_false_r in Hy.
-    apply N.eqb_eq in Hy. apply Hab. lia.
+    intros Hcan Hn Ha Hb Hab ea eb [H1 H2].
+    pose proof (gen_canonical b Hcan Hb) as Hcb. fold eb in Hcb.
+    pose proof (gen_code_len_bounds b Hb) as [_ [_ Hlb]]. fold eb in Hlb.
+    assert (Hp : code_val eb < 4096).
+    { eapply N.lt_le_trans; [exact Hcb|]. change 4096 with (2 ^ 12). apply N.pow_le_mono_r; [discriminate|exact Hlb]. }
+    pose proof (gen_decode_encode b (code_val eb) Hb Hp (N.mod_small _ _ Hcb)) as Db.
+    pose proof (gen_decode_encode a (code_val eb) Ha Hp H2) as Da.
+    fold ea in Da. fold eb in Db. rewrite Db in Da. apply Hab. lia.
   Qed.
-
-  Lemma gen_loop_eq_mappass : chk_loop_eq_mappass enc = true ->
-    make_decoding_table enc = make_decoding_table_mappass enc.
-  Proof. apply list_eqb_eq. Qed.
-
-  (* no slot of the 4096-entry array is left uninitialised *)
-  Lemma gen_complete p : chk_complete enc = true -> p < 4096 ->
-    PositiveMap.find (slot p) (make_decoding_array enc) <> None.
-  Proof. intros H Hp. apply array_complete_sound; [exact H|exact Hp]. Qed.
 End Generic.
 
 (** ** Permutations, for an arbitrary list that passes the checkers *)
@@ -512,26 +593,27 @@ Lemma column_permutations_for_decoding_nth pi : (pi < 16)%nat ->
   nth pi column_permutations_for_decoding [] = make_inverse_permutation (nth pi column_permutations_for_encoding []).
 Proof. intros Hpi. unfold column_permutations_for_decoding. apply nth_map_lt. rewrite permutations_count. exact Hpi. Qed.
 
-Lemma make_decoding_table_length enc : N.of_nat (length (make_decoding_table enc)) = 4096.
-Proof. unfold make_decoding_table. rewrite map_length, nseq_length. unfold n4096. apply N2Nat.id. Qed.
+(* the three computed facts about byte table ti *)
+Lemma byte_table_lengths_ok ti : (ti < 22)%nat -> chk_lengths 256 (nth ti encoding_tables_for_high_entropy_byte []) = true.
+Proof. exact (byte_tables_nth_chk _ ti byte_tables_lengths_ok). Qed.
+Lemma byte_table_canonical ti : (ti < 22)%nat -> chk_canonical (nth ti encoding_tables_for_high_entropy_byte []) = true.
+Proof. exact (byte_tables_nth_chk _ ti byte_tables_canonical). Qed.
+Lemma byte_table_array_ok ti : (ti < 22)%nat -> chk_array (nth ti encoding_tables_for_high_entropy_byte []) = true.
+Proof. exact (byte_tables_nth_chk _ ti byte_tables_array_ok). Qed.
 
 (** ** the 22 byte tables *)
 
 Lemma byte_code_len_bounds : forall ti b, (ti < 22)%nat -> (b < 256)%nat ->
   let e := nth b (nth ti encoding_tables_for_high_entropy_byte []) 0 in
   e < 65536 /\ 1 <= code_len e <= 12.
-Proof.
-  intros ti b Hti Hb. apply (gen_code_len_bounds 256); [|exact Hb].
-  apply (byte_tables_nth_chk _ ti byte_tables_lengths_ok Hti).
-Qed.
+Proof. intros ti b Hti Hb. apply (gen_code_len_bounds 256); [exact (byte_table_lengths_ok ti Hti)|exact Hb]. Qed.
 
 Lemma byte_code_val_canonical : forall ti b, (ti < 22)%nat -> (b < 256)%nat ->
   let e := nth b (nth ti encoding_tables_for_high_entropy_byte []) 0 in
   code_val e < 2 ^ code_len e.
 Proof.
-  intros ti b Hti Hb. apply (gen_canonical 256); [| |exact Hb].
-  - apply (byte_tables_nth_chk _ ti byte_tables_lengths_ok Hti).
-  - apply (byte_tables_nth_chk _ ti byte_tables_canonical Hti).
+  intros ti b Hti Hb.
+  apply (gen_canonical 256); [exact (byte_table_lengths_ok ti Hti)|exact (byte_table_canonical ti Hti)|exact Hb].
 Qed.
 
 (* encode then decode *)
@@ -541,9 +623,7 @@ Lemma byte_decode_encode : forall ti b p, (ti < 22)%nat -> (b < 256)%nat -> p < 
   nth (N.to_nat p) (nth ti byte_decoding_tables []) 0 = code_len e * 256 + N.of_nat b.
 Proof.
   intros ti b p Hti Hb Hp. rewrite (byte_decoding_tables_nth ti Hti).
-  apply (gen_decode_encode 256); [| |exact Hb|exact Hp].
-  - apply (byte_tables_nth_chk _ ti byte_tables_lengths_ok Hti).
-  - apply (byte_tables_nth_chk _ ti byte_tables_decode_encode Hti).
+  apply (gen_decode_encode 256); [exact (byte_table_lengths_ok ti Hti)|exact (byte_table_array_ok ti Hti)|exact Hb|exact Hp].
 Qed.
 
 (* decode then encode (what validate_decoding_table establishes at start-up) *)
@@ -556,9 +636,15 @@ Lemma byte_validate : forall ti p, (ti < 22)%nat -> p < 4096 ->
   code_len e = l /\ code_val e = p mod 2 ^ l.
 Proof.
   intros ti p Hti Hp. rewrite (byte_decoding_tables_nth ti Hti).
-  apply (gen_validate 256); [| |exact Hp].
-  - apply (byte_tables_nth_chk _ ti byte_tables_lengths_ok Hti).
-  - apply (byte_tables_nth_chk _ ti byte_tables_validate Hti).
+  apply (gen_validate 256); [exact (byte_table_lengths_ok ti Hti)|exact (byte_table_array_ok ti Hti)|exact Hp].
+Qed.
+
+(* the start-up call validate_decoding_table(decoding_tables_for_high_entropy_byte[ti], encoding_tables...[ti]) returns *)
+Lemma byte_validate_decoding_table : forall ti, (ti < 22)%nat ->
+  validate_decoding_table (nth ti byte_decoding_tables []) (nth ti encoding_tables_for_high_entropy_byte []) = true.
+Proof.
+  intros ti Hti. rewrite (byte_decoding_tables_nth ti Hti).
+  apply gen_validate_decoding_table. exact (byte_table_array_ok ti Hti).
 Qed.
 
 Lemma byte_prefix_free : forall ti a b, (ti < 22)%nat -> (a < 256)%nat -> (b < 256)%nat -> a <> b ->
@@ -566,23 +652,16 @@ Lemma byte_prefix_free : forall ti a b, (ti < 22)%nat -> (a < 256)%nat -> (b < 2
   let eb := nth b (nth ti encoding_tables_for_high_entropy_byte []) 0 in
   ~ (code_len ea <= code_len eb /\ code_val eb mod 2 ^ code_len ea = code_val ea).
 Proof.
-  intros ti a b Hti Ha Hb Hab. apply (gen_prefix_free 256); [| |exact Ha|exact Hb|exact Hab].
-  - apply (byte_tables_nth_chk _ ti byte_tables_lengths_ok Hti).
-  - apply (byte_tables_nth_chk _ ti byte_tables_prefix_free Hti).
+  intros ti a b Hti Ha Hb Hab.
+  apply (gen_prefix_free 256); [exact (byte_table_lengths_ok ti Hti)|exact (byte_table_array_ok ti Hti)|
+    exact (byte_table_canonical ti Hti)|apply Nat.le_refl|exact Ha|exact Hb|exact Hab].
 Qed.
 
 Lemma byte_table_written : forall ti p, (ti < 22)%nat -> p < 4096 ->
   PositiveMap.find (slot p) (make_decoding_array (nth ti encoding_tables_for_high_entropy_byte [])) <> None.
 Proof.
-  intros ti p Hti Hp. apply array_complete_sound; [|exact Hp].
-  apply (byte_tables_nth_chk _ ti byte_tables_complete Hti).
-Qed.
-
-Lemma byte_table_is_mappass : forall ti, (ti < 22)%nat ->
-  nth ti byte_decoding_tables [] = make_decoding_table_mappass (nth ti encoding_tables_for_high_entropy_byte []).
-Proof.
-  intros ti Hti. rewrite (byte_decoding_tables_nth ti Hti). apply gen_loop_eq_mappass.
-  apply (byte_tables_nth_chk _ ti byte_tables_loop_eq_mappass Hti).
+  intros ti p Hti Hp.
+  apply gen_complete; [exact (byte_table_array_ok ti Hti)|exact Hp].
 Qed.
 
 Lemma byte_decoding_table_length : forall ti, (ti < 22)%nat ->
@@ -609,7 +688,7 @@ Lemma unary_decode_encode : forall b p, (b < 65)%nat -> p < 4096 ->
   nth (N.to_nat p) unary_decoding_table 0 = code_len e * 256 + N.of_nat b.
 Proof.
   intros b p Hb Hp. unfold unary_decoding_table.
-  apply (gen_decode_encode 65); [exact unary_table_lengths_ok|exact unary_table_decode_encode|exact Hb|exact Hp].
+  apply (gen_decode_encode 65); [exact unary_table_lengths_ok|exact unary_table_array_ok|exact Hb|exact Hp].
 Qed.
 
 Lemma unary_validate : forall p, p < 4096 ->
@@ -621,7 +700,14 @@ Lemma unary_validate : forall p, p < 4096 ->
   code_len e = l /\ code_val e = p mod 2 ^ l.
 Proof.
   intros p Hp. unfold unary_decoding_table.
-  apply (gen_validate 65); [exact unary_table_lengths_ok|exact unary_table_validate|exact Hp].
+  apply (gen_validate 65); [exact unary_table_lengths_ok|exact unary_table_array_ok|exact Hp].
+Qed.
+
+Lemma unary_validate_decoding_table :
+  validate_decoding_table unary_decoding_table length_limited_unary_encoding_table65 = true.
+Proof.
+  unfold unary_decoding_table.
+  apply gen_validate_decoding_table. exact unary_table_array_ok.
 Qed.
 
 Lemma unary_prefix_free : forall a b, (a < 65)%nat -> (b < 65)%nat -> a <> b ->
@@ -630,16 +716,16 @@ Lemma unary_prefix_free : forall a b, (a < 65)%nat -> (b < 65)%nat -> a <> b ->
   ~ (code_len ea <= code_len eb /\ code_val eb mod 2 ^ code_len ea = code_val ea).
 Proof.
   intros a b Ha Hb Hab.
-  apply (gen_prefix_free 65); [exact unary_table_lengths_ok|exact unary_table_prefix_free|exact Ha|exact Hb|exact Hab].
+  apply (gen_prefix_free 65); [exact unary_table_lengths_ok|exact unary_table_array_ok|exact unary_table_canonical|
+    |exact Ha|exact Hb|exact Hab].
+  repeat constructor.
 Qed.
 
 Lemma unary_table_written : forall p, p < 4096 ->
   PositiveMap.find (slot p) (make_decoding_array length_limited_unary_encoding_table65) <> None.
-Proof. intros p Hp. apply array_complete_sound; [exact unary_table_complete|exact Hp]. Qed.
-
-Lemma unary_table_is_mappass :
-  unary_decoding_table = make_decoding_table_mappass length_limited_unary_encoding_table65.
-Proof. unfold unary_decoding_table. apply gen_loop_eq_mappass. exact unary_table_loop_eq_mappass. Qed.
+Proof.
+  intros p Hp. apply gen_complete; [exact unary_table_array_ok|exact Hp].
+Qed.
 
 Lemma unary_decoding_table_length : N.of_nat (length unary_decoding_table) = 4096.
 Proof. unfold unary_decoding_table. apply make_decoding_table_length. Qed.
@@ -706,8 +792,6 @@ Qed.
 (* table 0: byte 7 has the 2-bit codeword 00 (entry 0x2000), so every window ending in 00 decodes to (2, 7) *)
 Example byte_table0_entry7 : nth 7 (nth 0 encoding_tables_for_high_entropy_byte []) 0 = 8192.
 Proof. vm_compute. reflexivity. Qed.
-Example byte_table0_decode_0 : nth 0 (nth 0 byte_decoding_tables []) 0 = 2 * 256 + 7.
-Proof. vm_compute. reflexivity. Qed.
 Example byte_table0_decode_4092 : nth 4092 (nth 0 byte_decoding_tables []) 0 = 2 * 256 + 7.
 Proof. vm_compute. reflexivity. Qed.
 Example unary_decode_all_ones : nth 4095 unary_decoding_table 0 = 12 * 256 + 64.
@@ -716,43 +800,43 @@ Example inverse_perm0 : nth 4 (nth 0 column_permutations_for_decoding []) 0 = 55
                         /\ nth 55 (nth 0 column_permutations_for_encoding []) 0 = 4.
 Proof. vm_compute. split; reflexivity. Qed.
 
-(* {0, 00} is not prefix free; {0, 01} is prefix free but incomplete (windows ending in 11 are never written);
-   {0, 01, 11} is a complete prefix code; a codeword with bits above its length is rejected *)
-Example reject_prefix : chk_prefix_free [4096; 8192] = false.
-Proof. vm_compute. reflexivity. Qed.
+(* {0, 00} is not prefix free (symbol 1 overwrites half of the slots of symbol 0: the extensions pass fails);
+   {0, 01} is prefix free but incomplete (windows ending in 11 are never written: the slots pass fails);
+   {0, 01, 11} is a complete prefix code; a codeword with bits above its length is rejected by [chk_canonical], and
+   its slots do not validate *)
+Example reject_prefix : chk_prefix_free [4096; 8192] = false /\ chk_array [4096; 8192] = false
+                        /\ extensions_ok [4096; 8192] (make_decoding_array [4096; 8192]) = false.
+Proof. vm_compute. repeat split. Qed.
 Example reject_incomplete :
-  chk_prefix_free [4096; 8193] = true /\ chk_complete [4096; 8193] = false /\ chk_validate [4096; 8193] = false.
+  chk_prefix_free [4096; 8193] = true /\ chk_array [4096; 8193] = false /\
+  slots_ok (list_array [4096; 8193]) (make_decoding_array [4096; 8193]) = false /\
+  extensions_ok [4096; 8193] (make_decoding_array [4096; 8193]) = true.
 Proof. vm_compute. repeat split. Qed.
 Example accept_small_code :
   let enc := [4096; 8193; 8195] in
-  chk_lengths 3 enc && chk_canonical enc && chk_complete enc && chk_loop_eq_mappass enc && chk_validate enc &&
-  chk_prefix_free enc && chk_decode_encode enc = true.
+  chk_lengths 3 enc && chk_canonical enc && chk_array enc && chk_prefix_free enc = true.
 Proof. vm_compute. reflexivity. Qed.
-Example reject_noncanonical : chk_canonical [4098] = false /\ chk_loop_eq_mappass [4098] = false.
+Example reject_noncanonical : chk_canonical [4098] = false /\ chk_array [4098] = false.
 Proof. vm_compute. split; reflexivity. Qed.
-Example reject_overlap_decode : chk_decode_encode [4096; 8192; 4097] = false.
+Example reject_overwritten : chk_array [4096; 8192; 4097] = false.
 Proof. vm_compute. reflexivity. Qed.
 Example reject_non_permutation : chk_perm_bijective (repeat 0 56) = false.
 Proof. vm_compute. reflexivity. Qed.
 
-(** * Obligation count: 1 ([tables_shape]) + 22 byte tables x 7 kinds + 1 unary table x 7 kinds
-      + 16 permutations x 3 kinds = 1 + 154 + 7 + 48 = 210 finite obligations, all discharged by the kernel's VM. *)
+(** * Obligation count (computed by the kernel): 1 ([tables_shape])
+      + 22 byte tables x 4 kinds (lengths, canonical, slots, extensions)
+      + 1 unary table x 5 kinds (the same four + pairwise prefix-freeness)
+      + 16 permutations x 3 kinds (bijective, inverse check loop, inverse[permu[i]] = i)
+      = 1 + 88 + 5 + 48 = 142 finite obligations. *)
 
 Print Assumptions tables_shape.
 Print Assumptions byte_tables_lengths_ok.
 Print Assumptions byte_tables_canonical.
-Print Assumptions byte_tables_complete.
-Print Assumptions byte_tables_loop_eq_mappass.
-Print Assumptions byte_tables_validate.
-Print Assumptions byte_tables_prefix_free.
-Print Assumptions byte_tables_decode_encode.
+Print Assumptions byte_tables_array_ok.
 Print Assumptions unary_table_lengths_ok.
 Print Assumptions unary_table_canonical.
-Print Assumptions unary_table_complete.
-Print Assumptions unary_table_loop_eq_mappass.
-Print Assumptions unary_table_validate.
-Print Assumptions unary_table_prefix_free.
-Print Assumptions unary_table_decode_encode.
+Print Assumptions unary_table_array_ok.
+Print Assumptions unary_table_pairwise_prefix_free.
 Print Assumptions permutations_bijective.
 Print Assumptions permutations_inverse_check.
 Print Assumptions permutations_inverse.
@@ -760,17 +844,17 @@ Print Assumptions byte_code_len_bounds.
 Print Assumptions byte_code_val_canonical.
 Print Assumptions byte_decode_encode.
 Print Assumptions byte_validate.
+Print Assumptions byte_validate_decoding_table.
 Print Assumptions byte_prefix_free.
 Print Assumptions byte_table_written.
-Print Assumptions byte_table_is_mappass.
 Print Assumptions byte_decoding_table_length.
 Print Assumptions unary_code_len_bounds.
 Print Assumptions unary_code_val_canonical.
 Print Assumptions unary_decode_encode.
 Print Assumptions unary_validate.
+Print Assumptions unary_validate_decoding_table.
 Print Assumptions unary_prefix_free.
 Print Assumptions unary_table_written.
-Print Assumptions unary_table_is_mappass.
 Print Assumptions unary_decoding_table_length.
 Print Assumptions permutation_length.
 Print Assumptions permutation_range.
